@@ -63,7 +63,7 @@ func genScalar(t *rapid.T, label string) any {
 	case 0:
 		return float64(rapid.IntRange(-3, 12).Draw(t, label+".int"))
 	case 1:
-		return rapid.SampledFrom([]float64{0.5, -2.25, 1e6, 3.75}).Draw(t, label+".frac")
+		return rapid.SampledFrom([]float64{0.5, -2.25, 1e6, 3.75, 123456.789012, 1000.123456, -98765.4321, 0.000125, 16777217.5}).Draw(t, label+".frac")
 	case 2:
 		return rapid.SampledFrom([]string{"x", "", "abc", "12", "3.5", "-7", "1e2", "nope", "a b"}).Draw(t, label+".str")
 	case 3:
@@ -280,7 +280,9 @@ func genPipe(t *rapid.T, m map[string]any, invalid *bool, label string) selref.S
 				p.Type = "string"
 			}
 		case float64:
-			if v == float64(int64(v)) && rapid.Bool().Draw(t, l+".ntype") {
+			// whole numbers show as integers; fractions as a decimal text of the number (val.NumText)
+			_ = v
+			if rapid.Bool().Draw(t, l+".ntype") {
 				p.Type = "string"
 			}
 		case bool:
